@@ -9,7 +9,7 @@ def run(tier, seed):
     q = tier == "quick"
     chk = vkit.Check("C42", tier, seed)
     uc.driver()
-    plan = [("rt", 2 if q else 3, "b5"), ("one", 1, "b5"), ("dec", 4 if q else 6, "b5"), ("dec", 6 if q else 7, "b4")]
+    plan = [("rt", 2 if q else 3, "b5"), ("one", 1, "b5"), ("dec", 4 if q else 6, "b5"), ("dec", 6 if q else 7, "b4"), ("dec", 6 if q else 8, "b3")]
     splits = 0
     for mode, n, alpha in plan:
         name = "C42_%s_%s" % (mode, alpha)
@@ -37,7 +37,7 @@ def run(tier, seed):
                        "the wire bytes, then unmarshals (peek, payload_length, peek_length, typed unmarshal) from an evbuffer "
                        "made of exact-size reference chains: one chain, split in two at every position, one chain per byte; "
                        "all configurations must give the same observations as the model. Arbitrary byte strings over "
-                       "{00,0F,7F,80,FF} (and longer ones over {00,0F,10,80}) go through every decoder "
+                       "{00,0F,7F,80,FF} (and longer ones over {00,0F,10,80} and {00,01,02}: short items that really decode, also with a declared length larger than the integer inside, followed by more data) go through every decoder "
                        "(decode_tag/int/int64, payload_length, peek_length, unmarshal_header, consume, unmarshal, "
                        "unmarshal_int/int64/string/timeval/fixed): fail, or exactly the model's value and remaining length. "
                        "ASan reports any read outside a chain's block. non-trivial = at least one item / two bytes.")
